@@ -370,10 +370,87 @@ def _dates_chunk(ck, dates):
     ck.extra["distinct_rule_terms"] = ck.extra.get("distinct_rule_terms", 0) + len(done)
 
 
+def translator_validation(ck, tier, rnd):
+    """Encoder guard on the repository's own test populations (not the deciding step): each test case
+    is run through the real API with debug=True; for every scalar-rule node whose parents are in the
+    result, the symbolic definition of the node (the real callable incl. rounding wrapper), evaluated
+    under the row's concrete parent values, must equal the real column."""
+    import warnings
+    import pandas as pd
+    from gettsim import compute_taxes_and_transfers
+    from _gettsim_tests._policy_test_utils import load_policy_test_data
+    from _gettsim_tests import TEST_DATA_DIR
+    from gsv import rulebank, symdag
+    policies = sorted(p.name for p in TEST_DATA_DIR.iterdir() if p.is_dir())
+    encs = {}
+    n_cases = n_vals = 0
+    for pol in policies:
+        try:
+            cases = load_policy_test_data(pol).test_data
+        except Exception:   # noqa: BLE001
+            continue
+        rnd.shuffle(cases)
+        for case in cases[: (1 if tier == "quick" else 6)]:
+            date = case.date
+            if date.year < 2005:
+                continue
+            P, F = gt.env(date)
+            targets = [c for c in case.output_df.columns]
+            with warnings.catch_warnings():
+                warnings.simplefilter("ignore")
+                try:
+                    out = compute_taxes_and_transfers(case.input_df, P, F, targets=targets, debug=True)
+                    dag = symdag.Dag(date, targets=targets, data_cols=list(case.input_df.columns))
+                except Exception:   # noqa: BLE001
+                    continue
+            n_cases += 1
+            for n in dag.topo():
+                if dag.kind(n) != "rule" or n not in out.columns or any(p not in out.columns for p in dag.parents(n)):
+                    continue
+                key = (date, n)
+                if key not in encs:
+                    encs[key] = rulebank.encode_rule(dag, n)
+                enc = encs[key]
+                if enc.reason or enc.term is None:
+                    continue
+                for row in range(min(len(out), 3)):
+                    subs, ok = [], True
+                    for a, sy in enc.syms.items():
+                        v = out[a].iloc[row]
+                        try:
+                            if sy.ty is bool:
+                                subs.append((sy.t, z3.BoolVal(bool(v))))
+                            elif sy.ty is int:
+                                if float(v) != int(v):
+                                    ok = False
+                                subs.append((sy.t, z3.IntVal(int(v))))
+                            else:
+                                subs.append((sy.t, R.const_real(float(v))))
+                        except (TypeError, ValueError, OverflowError):
+                            ok = False
+                    if not ok:
+                        continue
+                    if any(not z3.is_true(z3.simplify(z3.substitute(R.zbool(c), *subs))) for c in enc.assumptions):
+                        continue
+                    if any(z3.is_true(z3.simplify(z3.substitute(g, *subs))) for g, k, w in enc.errors):
+                        continue
+                    try:
+                        sym = R.z3_to_py(z3.simplify(z3.substitute(enc.term, *subs)))
+                    except R.Unsupported:
+                        continue
+                    real = out[n].iloc[row]
+                    n_vals += 1
+                    same = (bool(real) == bool(sym)) if isinstance(sym, bool) else abs(float(real) - float(sym)) <= 1e-6 * max(1.0, abs(float(real)))
+                    if not same:
+                        raise common.HarnessError(f"translator validation: {n} in {case} row {row}: real {real!r}, encoding {sym!r}")
+    ck.extra["translator_validation"] = {"repo_test_cases": n_cases, "node_values_compared": n_vals}
+
+
 def run(tier):
     ck = common.Check("C03", tier)
     rnd = random.Random(common.SEED)
     done = set()
+    translator_validation(ck, tier, rnd)
     dates = date_classes(tier)
     n_rules = 0
     chunks = [dates[i::common.JOBS] for i in range(common.JOBS) if dates[i::common.JOBS]] if len(dates) > 1 else [dates]
